@@ -650,6 +650,62 @@ def close_midframe_script(rnd, sid):
     return sc
 
 
+FORMS = ["", "inspected1", "inspected2"]
+
+
+def forms_script(rnd, sid):
+    """every legal FORM of an outgoing Message handed to SendNoWait / the internal send: fresh from NewByteMessage, already
+    looked at once or twice by the application with the exported UnmarshalTo (log / validate before sending), header-only
+    (NewHdrOnlyMsg) — alone, with the write loop busy, with keep-alives and ordinary requests around. The form does not exist
+    for the model (same type, same payload: that IS the claim): compared with the model and judged by pred_c05 — each frame
+    must carry all its payload bytes and the frame behind it must not be swallowed."""
+    version = rnd.choice([1, 2])
+    b = cc.SB(sid, version=version)
+    b.connect(cur=rnd.choice([1, 2]), mx=2)
+    tag = rnd.randrange(1, 1 << 20) * 64
+    types = list(REQ_TYPES)
+    rnd.shuffle(types)
+    c = 0
+    outstanding = []
+    for _ in range(rnd.randrange(3, 7)):
+        c += 1
+        n = rnd.choice([1, 2, 9, 10, 11, 300, 4096, 65536]) if rnd.random() < 0.85 else rnd.choice([0, 655360, 655361])
+        api = rnd.choice(["SendNoWait", "SendNoWait", "send"])
+        busy = rnd.random() < 0.35
+        if busy:                                   # the write loop holds an ordinary request the peer has not taken yet
+            c += 1
+            b.send(c - 1, types[(c - 1) % len(types)], 5, tag + c - 1, expect=False)
+            held = c - 1
+        b.send(c, types[c % len(types)], n, tag + c, expect=False, api=api, ver=rnd.choice([0, 1]))
+        b.steps[-1]["form"] = rnd.choice(FORMS)
+        if busy:
+            b.req_index[held] = b.nseen
+            b.expect()
+            outstanding.append(held)
+        b.req_index[c] = b.nseen
+        b.expect()
+        if api == "send":
+            outstanding.append(c)
+        r = rnd.random()
+        if r < 0.4:                                # whatever comes next must be a frame of its own
+            b.keepalive(rnd.randrange(1 << 32))
+            b.expect()
+        elif r < 0.7:
+            c += 1
+            b.send(c, types[c % len(types)], rnd.choice([0, 3]), tag + c)
+            outstanding.append(c)
+    rnd.shuffle(outstanding)
+    for a in outstanding:
+        b.reply_to(a, resp_type(b.reqs[a]["typ"]), rnd.choice([0, 6]), tag + 500 + a)
+        b.wait(a)
+    b.op("drain")
+    b.op("state")
+    sc = b.script()
+    sc["family"] = "forms"
+    sc["step_ms"] = 800
+    return sc
+
+
 def close_payload_script():
     """SendMessage(MsgCloseConnection, 5 bytes): predicate only (see notes/C05.md)"""
     b = cc.SB("c05-close-payload", version=1)
@@ -697,6 +753,7 @@ def run(tier, seed, replay=None):
         scripts += [after_close_script(ra, "c05-afterclose-%d" % i) for i in range(240 if thorough else 40)]
         scripts += [kapayload_script(ra, "c05-kapayload-%d" % i) for i in range(120 if thorough else 20)]
         scripts += [manual_ack_script(ra, "c05-manualack-%d" % i) for i in range(200 if thorough else 30)]
+        scripts += [forms_script(ra, "c05-forms-%d" % i) for i in range(200 if thorough else 30)]
         rg = random.Random(seed + 11)
         pred_only = ([close_payload_script()] + [gated_script(rg, "c05-gated-%d" % i) for i in range(120 if thorough else 24)]
                      + [wtimeout_script(rg, "c05-wtimeout-%d" % i) for i in range(120 if thorough else 24)]
